@@ -19,9 +19,9 @@ import collections
 import numpy as np
 
 from . import target
-from ..trace import trace_solver, trace_init, trace_func, load, modules_of
+from ..trace import trace_solver, load, modules_of
 from .. import sym
-from ..sym import S, E, B, Rec, Patched, explore, lift
+from ..sym import S, Rec, Patched, explore, lift
 from ..model import Model
 
 BLAKE = 'exactpack.solvers.blake.blake:Blake'
@@ -148,10 +148,6 @@ BLAKE_FIELD_DERIV = ['displacement', 'strain_rr', 'strain_qq']
         second=[('displacement', 'r', 'r'), ('displacement', 't', 't')])
 def _fields():
     return trace_solver('BlakeFields', BLAKE, mode='new', extra_modules=[BLAKE_ELAS_MOD], extra_shims=BLAKE_SHIMS)
-
-
-def _lg_valid(params, pt, t):
-    return True
 
 
 @target('BlakeLG', ['blake'],
